@@ -21,12 +21,13 @@ ASSUMPTIONS = [
     "the relative-reduction premise is checked (with <=) only when a recording callback supplies the previous iterate's value",
     "reference optimum for placing reachable/unreachable targets comes from scipy's L-BFGS-B on the same problem",
 ]
-FAMS = ("qp", "qp_quartic", "rosenbrock", "exp_wall", "rastrigin", "styblinski_tang", "beale", "sphere", "quartic")
+FAMS = ("qp", "qp_quartic", "rosenbrock", "exp_wall", "rastrigin", "styblinski_tang", "beale", "sphere", "quartic", "log_barrier")
 
 
 def floors(tier):
     f = {"results_judged": 1500, "restart_results_judged": 500, "restart_below_checkpoint_nit": 100, "early_return_on_restart": 40,
-         "callable_stop_criteria_runs": 200, "__nontrivial__": 25}
+         "callable_stop_criteria_runs": 200, "runs_with_objective_redefined": 150, "objective_redefined_at_a_stationary_point_of_the_old_one": 60,
+         "runs_on_domain_restricted_objective": 60, "__nontrivial__": 25}
     for k in MESSAGES:
         f["msg:" + k] = 5
     return f
@@ -37,8 +38,10 @@ def cases(tier, seed):
     nrun = 2500 if tier == "quick" else 80000
     for i in range(nrun):
         ps = gen.rand_spec(rng, FAMS, nmax=6, boxes=("none", "mixed", "boxed", "lower", "narrow", "nonneg", "unit"), starts=("interior", "face", "vertex"))
+        if ps["family"] == "log_barrier":
+            ps["box"] = gen.pick(rng, ["none", "none", "lower", "nonneg"])  # the domain x > 0 is enforced by inf values, not by the box
         cfg = {
-            "jac": "callable" if rng.random() < 0.85 else gen.pick(rng, [None, "2-point"]),
+            "jac": "callable" if (rng.random() < 0.85 or ps["family"] == "log_barrier") else gen.pick(rng, [None, "2-point"]),
             "maxcor": int(rng.integers(1, 8)),
             "maxiter": int(gen.pick(rng, [0, 1, 2, 3, 5, 50])),
             "maxfun": int(gen.pick(rng, [1, 2, 3, 5, 8, 100])),
@@ -58,6 +61,16 @@ def cases(tier, seed):
                              "target_met": bool(rng.random() < 0.25), "maxls": int(gen.pick(rng, [1, 2, 5, 20])),
                              "cb": gen.pick(rng, [None, "never", 1])})
         yield {"problem": ps, "cfg": cfg, "restarts": restarts}
+    # runs whose objective is redefined on the fly (update_fun_def): every implication must be true of the returned state
+    nu = 400 if tier == "quick" else 12000
+    for i in range(nu):
+        ps = gen.rand_spec(rng, ("qp", "qp_quartic", "qp_softplus"), nmax=6, boxes=("none", "mixed", "boxed", "lower"), starts=("interior", "face"), condmax=1e3)
+        cfg = {"jac": "callable", "maxcor": int(rng.integers(1, 8)), "maxiter": int(gen.pick(rng, [5, 20, 60])), "maxfun": int(gen.pick(rng, [8, 30, 1000])),
+               "maxls": int(gen.pick(rng, [2, 5, 20])), "ftol": float(gen.pick(rng, [0.0, 1e-12, 1e-5])), "gtol": float(gen.pick(rng, [1e-9, 1e-6, 1e-3, 1e-1])),
+               "gtol_callable": False, "target_kind": None, "ftarget_callable": False, "cb": gen.pick(rng, [None, "never"])}
+        yield {"problem": ps, "cfg": cfg, "restarts": [],
+               "ufd": {"when": gen.pick(rng, ["stationary", "stationary", "call"]), "call": int(rng.integers(0, 6)),
+                       "tilt_seed": int(rng.integers(0, 2**31 - 1)), "tilt": float(np.exp(rng.uniform(np.log(0.05), np.log(5.0))))}}
 
 
 def judge_result(out, P, tr, cfg, nit0, n0, where, tags):
@@ -108,7 +121,8 @@ def judge_result(out, P, tr, cfg, nit0, n0, where, tags):
     if key == "FTOL":
         if tr.cb or nit0 is None:
             pass
-        if cfg.get("cb") is not None and r["nit"] > (nit0 or 0):
+        if cfg.get("cb") is not None and r["nit"] > (nit0 or 0) and not tags.get("update_fun_def"):
+            # (with an objective redefined on the fly the previous value is the one the update function supplies: not judged)
             # previous iterate's value: last callback state before the final iteration, else the value the run started from
             prev = tr.cb[-1]["snap"]["fun"] if tr.cb else tr.start_fun
             if prev is not None:
@@ -157,6 +171,56 @@ def reference_optimum(P):
         np.seterr(**old)
 
 
+class Tilted:
+    """Problem-like view whose objective becomes f + t.x when .on is set (a data term re-weighted on the fly)."""
+
+    def __init__(self, P, t):
+        self.P, self.t = P, t
+        self.n, self.lb, self.ub, self.x0, self.bounds, self.spec, self.meta = P.n, P.lb, P.ub, P.x0, P.bounds, P.spec, P.meta
+        self.on = False
+        self.at_stationary = False
+
+    def fB(self, x):
+        return self.P.f(x) + float(self.t @ x)
+
+    def gB(self, x):
+        return self.P.g(x) + self.t
+
+    def f(self, x):
+        return self.fB(x) if self.on else self.P.f(x)
+
+    def g(self, x):
+        return self.gB(x) if self.on else self.P.g(x)
+
+    def scipy_bounds(self):
+        return self.P.scipy_bounds()
+
+
+def install_switch(P, u, cfg, hooks, out):
+    """update_fun_def that redefines the objective once: at its k-th call, or the first time the iterate it is handed is
+    stationary (projected gradient <= gtol) for the definition in force - the moment a user's continuation scheme moves on."""
+    from collections import deque
+
+    rng = np.random.default_rng(u["tilt_seed"])
+    T = Tilted(P, u["tilt"] * rng.standard_normal(P.n))
+    calls = {"n": 0}
+
+    def ufd(x, f0, f0_old, grad, X, G):
+        j = calls["n"]
+        calls["n"] += 1
+        stationary = gen.pg_inf(np.asarray(x, dtype=float), np.asarray(grad, dtype=float), P.lb, P.ub) <= cfg["gtol"]
+        if not T.on and ((u["when"] == "call" and j == u["call"]) or (u["when"] == "stationary" and stationary)):
+            T.on = True
+            T.at_stationary = bool(stationary)
+            Gn = deque(T.gB(np.array(p, copy=True)) for p in X)
+            xo = np.array(X[-1], copy=True) if len(X) else np.array(x, copy=True)
+            return T.fB(np.array(x, copy=True)), T.fB(xo), T.gB(np.array(x, copy=True)), Gn
+        return f0, f0_old, grad, G
+
+    hooks["ufd"] = ufd
+    return T
+
+
 def run(spec):
     out = Outcome()
     P = gen.make_problem(spec["problem"])
@@ -167,6 +231,12 @@ def run(spec):
     f0 = P.f(P.x0.copy())
     np.seterr(**old)
     kind = cfg.pop("target_kind")
+    if P.spec["family"] == "log_barrier":
+        if not np.isfinite(f0):
+            out.count("skipped_start_outside_objective_domain")
+            out.sample = dict(spec=spec)
+            return out
+        out.count("runs_on_domain_restricted_objective")
     if kind is not None and np.isfinite(f0):
         fstar = reference_optimum(P)
         if fstar is None or not np.isfinite(fstar):
@@ -182,7 +252,14 @@ def run(spec):
         hooks["gtol_obj"] = shared_g
     if shared_t is not None:
         hooks["ftarget_obj"] = shared_t
+    if spec.get("ufd"):
+        P = install_switch(P, spec["ufd"], cfg, hooks, out)
+        tags = dict(tags, update_fun_def=True)
     tr = probes.run_min(P, cfg, hooks=hooks)
+    if spec.get("ufd"):
+        out.count("runs_with_objective_redefined" if P.on else "runs_with_update_function_never_switching")
+        if P.on and P.at_stationary:
+            out.count("objective_redefined_at_a_stationary_point_of_the_old_one")
     tr.gtol_calls = shared_g.calls if shared_g is not None else 0
     tr.ftarget_calls = shared_t.calls if shared_t is not None else 0
     tr.start_fun = f0
